@@ -460,6 +460,18 @@ def judge_vi_check(a, impl):
     return None
 
 
+def judge_fault(a, impl):
+    """tracker-level request while the store's Redis is down: it terminates, answers at most once, with a client
+    error (the request's own fault), the fixed internal error, or a normal response that needed no store
+    access — and never shows internal detail"""
+    head = impl.split(" ")[0]
+    if head in ("PANIC", "TWO-DATAGRAMS", "AFTER-RAN-ON-ERROR", "AFTER-RAN-ON-SILENCE", "UNDECODABLE", "SENTINEL-LOST", "WEDGED"):
+        return "request handling failed while the store was unavailable: " + head
+    if "cls=LEAK" in impl or "SECRET" in impl or "10.0.0.5" in impl:
+        return "internal error detail (the Redis address / error text) disclosed to the client"
+    return None
+
+
 def judge_cfg_validate(a, impl):
     """C20 on the implementation alone: every governed value positive (string options non-empty), values that were
     valid are preserved (a shard count that cannot be doubled counts as invalid), validating twice changes nothing."""
@@ -483,7 +495,7 @@ def judge_cfg_validate(a, impl):
     return None
 
 
-JUDGES = {"cfg.validate": judge_cfg_validate, "wedge.detected": judge_wedge, "vi.check": judge_vi_check, "vi.handle": judge_vi_handle, "trk.http_announce": judge_trk, "trk.udp": judge_trk, "trk.http_scrape": judge_trk}
+JUDGES = {"fault.trk.http_announce": judge_fault, "fault.trk.udp": judge_fault, "fault.trk.http_scrape": judge_fault, "cfg.validate": judge_cfg_validate, "wedge.detected": judge_wedge, "vi.check": judge_vi_check, "vi.handle": judge_vi_handle, "trk.http_announce": judge_trk, "trk.udp": judge_trk, "trk.http_scrape": judge_trk}
 
 
 def matches(finding, failing):
